@@ -82,7 +82,14 @@ def _replay_order(rows):
         got_i = [bool(np.all(cone_i.is_inside(np.array(v, dtype=float) * 0.25))) for v in lat]
         got_l2 = [bool(np.all(cone_l.is_inside(np.array(lat, dtype=float) * 0.25)[k])) for k in range(len(lat))]
         got_di = [bool(np.all(PolyhedralConeOrder(cone_i).dominates(np.array(v, dtype=float) * 0.25 + base, base))) for v in lat]
-        for name, got, e in (("is_inside-batched", got_b, exp), ("is_inside-single", got_s, exp), ("is_inside-list", got_l, exp[::5]),
+        # ConeTable!ScaleInv bound to the code: a cone is closed under positive scaling, so the table row holds at every dyadic scale
+        # (integer W, dyadic factor: every facet product is exact, however small or large the vectors are)
+        tiny, huge = 2.0 ** -50, 2.0 ** 40
+        got_t = [bool(b) for b in cone.is_inside(np.array(lat, dtype=float) * tiny)]
+        got_h = [bool(np.all(cone.is_inside(np.array(v, dtype=float) * huge))) for v in lat]
+        got_dt = [bool(np.all(order.dominates(np.array(v, dtype=float) * tiny + base * tiny, base * tiny))) for v in lat]
+        for name, got, e in (("is_inside-batched", got_b, exp), ("is_inside-scale-2^-50", got_t, exp), ("is_inside-scale-2^40", got_h, exp),
+                             ("dominates-scale-2^-50", got_dt, exp), ("is_inside-single", got_s, exp), ("is_inside-list", got_l, exp[::5]),
                              ("dominates", got_d, exp), ("is_inside-intW-fractional", got_i, exp), ("is_inside-listW-fractional", got_l2, exp),
                              ("dominates-intW-fractional", got_di, exp)):
             if got != e:
